@@ -88,7 +88,8 @@ void frequent_items_sketch<T, W, H, E, A>::merge(frequent_items_sketch&& other) 
 
 template<typename T, typename W, typename H, typename E, typename A>
 bool frequent_items_sketch<T, W, H, E, A>::is_empty() const {
-  return map.get_num_active() == 0;
+  // a sketch whose counters were all purged has no active items but still carries total weight and offset
+  return total_weight == 0;
 }
 
 template<typename T, typename W, typename H, typename E, typename A>
